@@ -21,7 +21,7 @@ def part_text(p, v):
         sp = " " if v.get("ws") else ""
         if n == "exists":
             return "[%sb%s]" % (sp, sp)
-        val = '"v"' if v.get("quote") else "v"
+        val = '""' if v.get("emptyval") else ('"v"' if v.get("quote") else "v")      # the empty string is a value too
         return "[%sb%s%s%s%s%s]" % (sp, sp, n, sp, val, sp)
     if k == "pclass":
         return ":HOVER" if up else ":hover"
@@ -47,7 +47,7 @@ def part_text(p, v):
 # texts that are no selector, each for a different reason (the last ones only because of a misplaced universal selector)
 BAD_SELECTORS = ["x#y#z.k >", "$", "x#y.k*", "x:not(#y*)", "x#y.k,,"]
 BAD_MEMBERS = ["$", "r*", "a:not(b*)", "#i*"]
-VARIANTS = [{}, {"ws": True}, {"upper": True}, {"comment": True, "quote": True}, {"escape": True, "ws": True, "upper": True}]
+VARIANTS = [{}, {"ws": True}, {"upper": True}, {"comment": True, "quote": True}, {"escape": True, "ws": True, "upper": True}, {"emptyval": True}]
 
 
 def project(sel):
@@ -125,10 +125,21 @@ def run_row(item):
                 s.selectorText = BAD_SELECTORS[(rid + len(text)) % len(BAD_SELECTORS)]
             except Exception:
                 pass
+            # ... and one made through the rule (a list in which one member is no selector) leaves the rule's list as it was
+            rule = sheet.cssRules[0]
+            before = rule.selectorText
+            try:
+                rule.selectorText = "%s, %s" % (text, BAD_SELECTORS[(rid + len(text)) % len(BAD_SELECTORS)])
+            except Exception:
+                pass
             cssutils.log.raiseExceptions = True
+            if rule.selectorText != before or sheet.cssRules.length != 1 or sheet.cssText != cssutils.parseString(text + " { left: 0 }").cssText:
+                return {"out": "RejectedRuleSelectorTextChangedTheRule:%r" % rule.selectorText, "text": text}
             return {"out": "ok", "text": text, "spec": spec, "respec": list(s2.specificity), "sheetspec": list(s3.specificity),
                     "parts": project(s2), "parts0": project(css.Selector(text)), "ser": ser, "rejtext": s.selectorText, "rejspec": list(s.specificity)}
         out, o = outcome(f)
+        if out == "ok" and o["out"] != "ok":
+            out = o["out"]
         spellings.append(o if out == "ok" else {"out": out, "text": text, "spec": [], "respec": [], "sheetspec": [], "parts": [], "parts0": [], "ser": "", "rejtext": "", "rejspec": []})
     return {"id": rid, "item": r, "init": {"x": 0}, "steps": [{"a": r, "out": "ok", "post": {"spellings": spellings}}]}
 
